@@ -121,6 +121,8 @@ def gen_spec(rng, max_image=2000, marker=None, p_unknown=0.0):
             rng.randrange(10), rng.randrange(100), rng.randrange(100))}
     elif r < 0.8:
         fw = {"id": 1053, "ver": "D-%05d" % rng.randrange(100000)}
+    if fw:
+        fw["name"] = rng.choice(["BALTECHFW", "BALTECHFW", "ID-ENGINE", "STD-RDR-1", "ACCESS200", "D-LINK-FW"])   # 9 characters
     if marker is None:
         marker = rng.random() < 0.9
     secs = [gen_section(rng, max_image) for _ in range(nsec)]
@@ -198,7 +200,8 @@ def render_items(spec):
     """list of (kind, section index or None, text line without newline, line record or None)"""
     items = []
     if spec["fw"]:
-        items.append(("hdr", None, "##Firmware: %04d BALTECHFW %s" % (spec["fw"]["id"], spec["fw"]["ver"]), None))
+        items.append(("hdr", None, "##Firmware: %04d %s %s" % (spec["fw"]["id"], spec["fw"].get("name", "BALTECHFW"),
+                                                              spec["fw"]["ver"]), None))
     if spec["creator"]:
         items.append(("hdr", None, "##Creator: " + spec["creator"], None))
     if spec["marker"]:
@@ -212,7 +215,8 @@ def render_items(spec):
             vd = (b"\x01\x00" + bytes([len(v)]) + v).hex(" ").upper()
         items.append(("instr", si, "#>CHECK_FWVER VERSIONDESC=" + vd, None))
         if sec.get("fw"):
-            items.append(("instr", si, "##Firmware: %04d BALTECHFW %s" % (sec["fw"]["id"], sec["fw"]["ver"]), None))
+            items.append(("instr", si, "##Firmware: %04d %s %s" % (sec["fw"]["id"], sec["fw"].get("name", "BALTECHFW"),
+                                                                  sec["fw"]["ver"]), None))
         if sec["select"]:
             items.append(("instr", si, "#>SELECT FILTER=" + bytes.fromhex(sec["select"]).hex(" ").upper(), None))
         if sec["select_if"]:
